@@ -10,9 +10,10 @@ if ! git -C "$WT" apply "$PATCH"; then echo "patch does not apply"; git -C /repo
 cd "$(dirname "$0")/.."
 # private copy of the Coq tree and work dir, so regenerated Gen.v files and rebuilt .vo never touch /verif/coq
 cp -r coq "$WT.coq"
-VERIF_REPO="$WT" VERIF_COQ="$WT.coq" VERIF_WORK="$WT.work" VERIF_COQCHK=0 ./check "$PID" --tier "$TIER"
+VERIF_REPO="$WT" VERIF_COQ="$WT.coq" VERIF_WORK="$WT.work" VERIF_OUT="$WT.out" VERIF_COQCHK=0 ./check "$PID" --tier "$TIER"
 rc=$?
-rm -rf "$WT.coq" "$WT.work"
+echo "(replays of this run: kept only in the output above; evidence not written to /verif)"; for f in "$WT.out"/replays/*/*.json; do [ -f "$f" ] && { echo "--- $f"; head -c 1500 "$f"; echo; }; done 2>/dev/null | head -n 80
+rm -rf "$WT.coq" "$WT.work" "$WT.out"
 git -C /repo worktree remove --force "$WT" >/dev/null 2>&1
 rm -rf "$WT"
 exit $rc
